@@ -9,7 +9,7 @@ import random
 
 import numpy as np
 
-from harness.core import Machinery
+from harness.core import Machinery, to_int
 from harness import simlayout as sl
 
 LEVEL = "model_checking"
@@ -40,7 +40,7 @@ def layout_event(shape, order, nprocs, rc):
 
 
 def _dec(v):
-    return int(round(float(v)))
+    return to_int(v)
 
 
 def accessor_job(comm, shape, nprocs, layouts):
